@@ -455,7 +455,12 @@ def route12(ctx: Any) -> List[Ob]:
     ctor = [c for c in walk_local_ordered(ar.node) if isinstance(c, ast.Call) and call_name(c) == '_QueryResponse']
     if len(ctor) != 1 or len(ctor[0].args) < 2:
         raise AnalysisError('anchor vanished: construction of _QueryResponse in async_response')
-    qx = expand(ar, ctor[0].args[1])
+    qarg = ctor[0].args[1]
+    acc_parts: List[ast.AST] = []
+    if isinstance(qarg, ast.Name):
+        acc_parts = [c_.args[0] for c_ in walk_local_ordered(ar.node) if isinstance(c_, ast.Call) and call_name(c_) in ('extend', 'append') and isinstance(c_.func, ast.Attribute) and isinstance(c_.func.value, ast.Name) and c_.func.value.id == qarg.id and c_.args]
+        acc_parts += [c_.value for c_ in walk_local_ordered(ar.node) if isinstance(c_, ast.AugAssign) and isinstance(c_.target, ast.Name) and c_.target.id == qarg.id]
+    qx = qarg if acc_parts else expand(ar, qarg)  # an accumulator is judged through what it is extended with
     bound = {g.target.id for c_ in ast.walk(qx) if isinstance(c_, (ast.ListComp, ast.GeneratorExp, ast.SetComp)) for g in c_.generators if isinstance(g.target, ast.Name)}
     free = {x.id for x in ast.walk(qx) if isinstance(x, ast.Name)} - bound
     pk_param = ar.params[1]
@@ -468,16 +473,37 @@ def route12(ctx: Any) -> List[Ob]:
             return False
         vals = [st.value for st in walk_local_ordered(ar.node) if isinstance(st, ast.Assign) and any(isinstance(t, ast.Name) and t.id == nm for t in st.targets)]
         loops_ = [lp.iter for lp in walk_local_ordered(ar.node) if isinstance(lp, ast.For) and isinstance(lp.target, ast.Name) and lp.target.id == nm]
-        srcs = vals + loops_
+        # an accumulator: starts empty and is only ever extended, inside loops over packet-derived collections
+        grows = [c_.args[0] for c_ in walk_local_ordered(ar.node) if isinstance(c_, ast.Call) and call_name(c_) in ('extend', 'append') and isinstance(c_.func, ast.Attribute) and isinstance(c_.func.value, ast.Name) and c_.func.value.id == nm and c_.args]
+        grows += [c_.value for c_ in walk_local_ordered(ar.node) if isinstance(c_, ast.AugAssign) and isinstance(c_.target, ast.Name) and c_.target.id == nm]
+        srcs = [v for v in vals if not (grows and isinstance(v, (ast.List, ast.Call)) and norm(v) in ('[]', 'list()'))] + loops_ + grows
         return bool(srcs) and all(all(packet_derived(x.id, depth - 1) for x in ast.walk(v) if isinstance(x, ast.Name)) for v in srcs)
 
-    from_packets = all(packet_derived(n_) for n_ in free) and any(isinstance(x, ast.Attribute) and x.attr in ('_questions', 'questions') for x in ast.walk(qx))
+    from_packets = all(packet_derived(n_) for n_ in free) and any(isinstance(x, ast.Attribute) and x.attr in ('_questions', 'questions') for part in [qx] + acc_parts for x in ast.walk(part))
     # `a record the host saw multicast less than one second before` is read from the cache: every record type the host can
     # answer with is cached when it is seen (pairs and cache adds per record type, shared with C06.ORDER)
     from .c06 import pair_per_live_record
 
     obs.extend(pair_per_live_record(ctx, R))
     obs.append(ob(R, ar, ctor[0], 'the question list that decides `single question, answer at once` is the list of questions asked in the packets', from_packets, '' if from_packets else f'`{norm(qx)[:80]}` is not derived from the packets alone'))
+    # ... in ALL the packets of the query: a truncated query is a train of packets, and a train with several questions spread
+    # over its packets does not consist of a single question
+    def picks_one(e: ast.AST) -> bool:
+        return any(isinstance(x, ast.Subscript) and isinstance(x.value, ast.Name) and x.value.id == pk_param and not isinstance(x.slice, ast.Slice) for x in ast.walk(e))
+
+    one = picks_one(qx)
+    for n_ in free:
+        if n_ == pk_param:
+            continue
+        for st in walk_local_ordered(ar.node):
+            if isinstance(st, ast.Assign) and any(isinstance(t, ast.Name) and t.id == n_ for t in st.targets) and picks_one(st.value):
+                # a definition of the local that selects one packet -- relevant when that definition can reach the constructor
+                one = True
+    over_all = any(isinstance(c_, (ast.ListComp, ast.GeneratorExp, ast.SetComp)) and any(isinstance(g.iter, ast.Name) and g.iter.id == pk_param for g in c_.generators) for c_ in ast.walk(qx))
+    if not over_all and isinstance(ctor[0].args[1], ast.Name):
+        acc = ctor[0].args[1].id
+        over_all = any(isinstance(lp, ast.For) and isinstance(lp.iter, ast.Name) and lp.iter.id == pk_param and any((isinstance(c_, ast.Call) and call_name(c_) in ('extend', 'append') and isinstance(c_.func, ast.Attribute) and isinstance(c_.func.value, ast.Name) and c_.func.value.id == acc) or (isinstance(c_, ast.AugAssign) and isinstance(c_.target, ast.Name) and c_.target.id == acc) for c_ in ast.walk(lp)) for lp in walk_local_ordered(ar.node))
+    obs.append(ob(R, ar, ctor[0].args[1], 'that list holds the questions of every packet of the query (a truncated query spans several packets)', over_all and not one, 'only one packet of the train is consulted' if one else ('' if over_all else 'the list is not collected over all the packets')))
     return obs
 
 
